@@ -730,14 +730,12 @@ theorem maxTransferLength_le (o : FdtAbs.Oti) (m : Nat) (h : FdtAbs.maxTransferL
   unfold FdtAbs.maxTransferLength at h
   split at h
   · cases h
-  · simp only at h
-    split at h
-    · cases h
-    · split at h
-      · cases h
-      · simp only [Except.ok.injEq] at h
-        subst h
-        split <;> split <;> omega
+  · simp only [Except.ok.injEq] at h
+    subst h
+    generalize FdtAbs.satMul64 _ _ = size
+    by_cases h6 : o.enc = 6
+    · simp only [h6, if_true]; split <;> omega
+    · simp only [h6, if_false]; split <;> omega
 
 theorem effectiveOti_some_le (d : FdtAbs.Oti) (a : FdtAbs.ObjAttrs) (o : FdtAbs.Oti)
     (h : FdtAbs.effectiveOti d a = .ok (some o)) : a.transferLength ≤ 0xFFFFFFFFFFFF := by
@@ -745,12 +743,14 @@ theorem effectiveOti_some_le (d : FdtAbs.Oti) (a : FdtAbs.ObjAttrs) (o : FdtAbs.
   simp only at h
   split at h
   · cases h
-  · rename_i mtl hm
-    split at h
+  · split at h
     · cases h
-    · rename_i hle
-      have := maxTransferLength_le _ _ hm
-      omega
+    · rename_i mtl hm
+      split at h
+      · cases h
+      · rename_i hle
+        have := maxTransferLength_le _ _ hm
+        omega
 
 /-- an `add_object` that the abstract model refuses after the TOI was taken: used to mirror the scheduler model's
     refused `allocate_toi` + `add_object` (priority queue missing), which consumes a TOI as well -/
